@@ -230,7 +230,7 @@ def fresh_index(e, shape, tag="i"):
             idx.append(0)
             continue
         _idx_counter[0] += 1
-        v = z3.Int(f"{tag}{_idx_counter[0]}")
+        v = z3.Int(f"IX!{tag}{_idx_counter[0]}")
         idx.append(v)
         hyps.append(v >= 0)
         hyps.append(v < smt.z(dim_term(d)))
@@ -248,7 +248,7 @@ def elem_eq(a, b):
     return smt.req(smt.R(a), smt.R(b))
 
 
-def _arrays_equal_silent(e, a, b, timeout_ms=8000):
+def _arrays_equal_silent(e, a, b, timeout_ms=30000):
     """forall idx. a[idx] == b[idx] (shapes included), decided without recording obligations"""
     a, b = values.const_arr(a), values.const_arr(b)
     if a.ndim != b.ndim or (a.kind == "bool") != (b.kind == "bool"):
